@@ -126,6 +126,7 @@ def run(pid, patch, tier='quick', props=None, inplace=False):
       shutil.rmtree(tmp, ignore_errors=True)
       sys.exit(f'patch does not apply: {r.stdout}{r.stderr}')
     env['VERIF_REPO'] = dst
+    env['VP_REPLAY_DIR'] = os.path.join(tmp, 'replays')
   try:
     for p in props:
       t0 = time.time()
